@@ -4,12 +4,34 @@
 //   localize <seed> <n> n random pendulum runs on every AbstractIntegratorRep integrator: on every ReachedEventTrigger the
 //                       returned state is at tLow, advanced at tHigh, witness signs at tLow/tHigh bracket a crossing in the
 //                       reported (monitored) direction, width <= max(accuracy*timescale*window, SignificantReal*max(1,t))
+//   fec <seed> <n>      the real IntegratorRep::findEventCandidates (inline in the CURRENT tree's IntegratorRep.h) on random witness
+//                       vectors and trigger settings, first without and then with a viable list, against a reference scan written
+//                       from the property text: equal lengths, exactly the monitored sign changes, in order, estimates in the
+//                       bracket, earliestTimeEst == min, minWindow <= narrowestWindow <= every candidate's requirement
+//   schedule            finding F9: two subsystems with scheduled events at t=5 (earlier subsystem) and t=2: ids delivered for t=2, handler log
+//   timestepper <seed> <n>  TimeStepper runs (CURRENT tree's TimeStepper.cpp compiled into the driver) on a force-free pin joint with
+//                       a scheduled handler (random times; it teleports q,u), a periodic reporter and a triggered handler, all
+//                       logging: every scheduled time handled exactly once at exactly that time, reports exactly at their times,
+//                       triggered handler at the top of the localised window, motion after a handler continues from the state
+//                       the handler produced, returns never past the requested time
 // Prints "REPRODUCED: ..." on a violation, "NOT-REPRODUCED" otherwise.
-#include "Simbody.h"
 #include <cstdio>
 #include <cstdlib>
+#include <cmath>
 #include <string>
 #include <random>
+#include <vector>
+#include <algorithm>
+#include <sstream>
+#include <iostream>
+#include <map>
+#include <set>
+#define private public
+#define protected public
+#include "Simbody.h"
+#include "IntegratorRep.h"
+#undef private
+#undef protected
 using namespace SimTK;
 
 static int classify() {
@@ -87,12 +109,205 @@ static int localize(unsigned seed, int n) {
     if (!bad) printf("NOT-REPRODUCED (%d runs, %d localised events, all clauses held; INFO: in %d of them the witness evaluated on the returned before-state/advanced state does not bracket the listed crossing)\n", n, events, notBracketing);
     return bad;
 }
+
+// ---------------------------------------------------------------------------------------------------------------------
+struct Wit2 : public TriggeredEventHandler {
+    Wit2(bool r, bool f, Real w) : TriggeredEventHandler(Stage::Position) {
+        getTriggerInfo().setTriggerOnRisingSignTransition(r); getTriggerInfo().setTriggerOnFallingSignTransition(f); getTriggerInfo().setRequiredLocalizationTimeWindow(w); }
+    Real getValue(const State& s) const override { return 1; }
+    void handleEvent(State&, Real, bool&) const override {}
+};
+static int fecCheck(const IntegratorRep& rep, int nEvents, const Array_<SystemEventTriggerIndex>* viable, const Array_<Event::Trigger>* viableT,
+                    Real tLow, const Vector& eLow, Real tHigh, const Vector& eHigh, Real bias, Real minWindow,
+                    Array_<SystemEventTriggerIndex>& cand, Array_<Event::Trigger>& trans, const char* ctx) {
+    Array_<Real> times; Real earliest = NaN, narrowest = NaN;
+    rep.findEventCandidates(nEvents, viable, viableT, tLow, eLow, tHigh, eHigh, bias, minWindow, cand, times, trans, earliest, narrowest);
+    std::vector<int> expIdx; std::vector<Event::Trigger> expTr;
+    const int nScan = viable ? (int)viable->size() : nEvents;
+    Real req = Infinity;
+    for (int j = 0; j < nScan; j++) {
+        const int e = viable ? (int)(*viable)[j] : j;
+        const EventTriggerInfo& info = rep.eventTriggerInfo[e];
+        const bool falling = eLow[e] > 0 && !(eHigh[e] > 0) && info.shouldTriggerOnFallingSignTransition(), rising = eLow[e] < 0 && !(eHigh[e] < 0) && info.shouldTriggerOnRisingSignTransition();
+        if (falling || rising) { expIdx.push_back(e); expTr.push_back(falling ? Event::Falling : Event::Rising);
+            req = std::min(req, std::max(rep.accuracyInUse * rep.timeScaleInUse * info.getRequiredLocalizationTimeWindow(), minWindow)); }
+    }
+    std::string why;
+    if (cand.size() != times.size() || times.size() != trans.size()) why = "the three lists differ in length";
+    else if (cand.size() != expIdx.size()) why = "number of candidates differs from the number of monitored sign changes";
+    else {
+        Real mn = Infinity;
+        for (unsigned k = 0; k < cand.size() && why.empty(); k++) {
+            if ((int)cand[k] != expIdx[k]) why = "candidate index/order differs from the scan of the examined list";
+            else if (trans[k] != expTr[k]) why = "reported direction differs";
+            else if (!(tLow <= times[k] && times[k] <= tHigh)) why = "estimate outside the bracket";
+            mn = std::min(mn, times[k]);
+        }
+        if (why.empty() && !(earliest == mn)) why = "earliestTimeEst is not the minimum of the estimates";
+        if (why.empty() && !(cand.empty() ? narrowest == Infinity : (narrowest >= minWindow && narrowest <= req))) why = "narrowestWindow outside [minWindow, smallest requirement]";
+    }
+    if (!why.empty()) { printf("REPRODUCED: findEventCandidates: %s %s (n=%d expected %d, earliest=%.17g narrowest=%g)\n", why.c_str(), ctx, (int)cand.size(), (int)expIdx.size(), earliest, narrowest); return 1; }
+    return 0;
+}
+static int fec(unsigned seed, int n) {
+    std::mt19937 rng(seed);
+    const Real vals[] = {-2.0, -1e-9, 0.0, 1e-9, 3.0};
+    int bad = 0, calls = 0;
+    for (int it = 0; it < n && bad < 3; it++) {
+        MultibodySystem sys; SimbodyMatterSubsystem matter(sys);
+        Body::Rigid body(MassProperties(1.0, Vec3(0), Inertia(1)));
+        MobilizedBody::Pin pin(matter.Ground(), Transform(), body, Transform(Vec3(0, 1, 0)));
+        const int m = 1 + rng() % 6;
+        for (int k = 0; k < m; k++) sys.addEventHandler(new Wit2(rng() % 3 != 0, rng() % 3 != 0, 0.01 * (1 + rng() % 50)));
+        State s = sys.realizeTopology();
+        RungeKuttaMersonIntegrator integ(sys); integ.initialize(s);
+        const IntegratorRep& rep = integ.getRep();
+        const int nEvents = (int)rep.eventTriggerInfo.size();
+        for (int rep_ = 0; rep_ < 20 && bad < 3; rep_++) {
+            Vector a(nEvents), b(nEvents), c(nEvents);
+            for (int k = 0; k < nEvents; k++) { a[k] = vals[rng() % 5]; b[k] = vals[rng() % 5]; c[k] = vals[rng() % 5]; }
+            const Real tLow = 0.25 * (rng() % 8), tHigh = tLow + 0.001 * (1 + rng() % 1000), bias = (rng() % 3 == 0) ? 0.5 : (rng() % 2 ? 1.0 : 2.0), minWindow = 1e-13;
+            char ctx[200]; snprintf(ctx, sizeof ctx, "[seed %u system %d case %d, %d triggers, bracket (%g,%g]]", seed, it, rep_, nEvents, tLow, tHigh);
+            Array_<SystemEventTriggerIndex> c1, c2; Array_<Event::Trigger> t1, t2;
+            bad += fecCheck(rep, nEvents, 0, 0, tLow, a, tHigh, c, bias, minWindow, c1, t1, ctx); calls++;
+            if (!c1.empty()) { bad += fecCheck(rep, nEvents, &c1, &t1, tLow, a, (tLow + tHigh) / 2, b, bias, minWindow, c2, t2, ctx); calls++; }
+        }
+    }
+    if (!bad) printf("NOT-REPRODUCED (%d findEventCandidates calls agree with the reference scan)\n", calls);
+    return bad;
+}
+
+// ---------------------------------------------------------------------------------------------------------------------
+struct TSLog { std::vector<Real> sched, report, trigAdv; std::vector<std::pair<Real, Vec2> > teleports; Real lastTeleT = -1, lastQ = 0, lastU = 0; };
+struct SchedH : public ScheduledEventHandler {
+    SchedH(std::vector<Real> t, TSLog* log, std::mt19937* rng) : times(t), log(log), rng(rng) {}
+    Real getNextEventTime(const State& s, bool includeCurrentTime) const override {
+        for (Real t : times) if (t > s.getTime() || (includeCurrentTime && t == s.getTime())) return t;
+        return Infinity; }
+    void handleEvent(State& s, Real, bool&) const override {
+        log->sched.push_back(s.getTime());
+        const Real q = 0.001 * (Real)((*rng)() % 1000), u = 0.5 + 0.001 * (Real)((*rng)() % 1000);
+        s.updQ()[0] = q; s.updU()[0] = u; log->lastTeleT = s.getTime(); log->lastQ = q; log->lastU = u; }
+    std::vector<Real> times; TSLog* log; std::mt19937* rng;
+};
+struct PerR : public PeriodicEventReporter {
+    PerR(Real h, TSLog* log) : PeriodicEventReporter(h), log(log) {}
+    void handleEvent(const State& s) const override { log->report.push_back(s.getTime()); }
+    TSLog* log;
+};
+struct TrigH : public TriggeredEventHandler {
+    TrigH(Real c, TSLog* log) : TriggeredEventHandler(Stage::Position), c(c), log(log) {}
+    Real getValue(const State& s) const override { return s.getQ()[0] - c; }
+    void handleEvent(State& s, Real, bool&) const override { log->trigAdv.push_back(s.getTime()); }
+    Real c; TSLog* log;
+};
+static int timestepper(unsigned seed, int n) {
+    std::mt19937 rng(seed);
+    int bad = 0, nsched = 0, nrep = 0, ntrig = 0;
+    for (int it = 0; it < n && bad < 3; it++) {
+        MultibodySystem sys; SimbodyMatterSubsystem matter(sys); GeneralForceSubsystem forces(sys);      // force-free pin: q(t) = q0 + u t
+        Body::Rigid body(MassProperties(1.0, Vec3(0), Inertia(1)));
+        MobilizedBody::Pin pin(matter.Ground(), Transform(), body, Transform(Vec3(0, 1, 0)));
+        TSLog log; std::vector<Real> times; Real t = 0;
+        const int ns = 1 + rng() % 4;
+        for (int k = 0; k < ns; k++) { t += 0.05 * (1 + rng() % 20); times.push_back(t); }
+        const Real h = 0.01 * (5 + rng() % 40), c = 0.3 + 0.01 * (rng() % 100);
+        sys.addEventHandler(new SchedH(times, &log, &rng)); sys.addEventReporter(new PerR(h, &log)); sys.addEventHandler(new TrigH(c, &log));
+        State s = sys.realizeTopology(); pin.setQ(s, 0.0); pin.setU(s, 1.0);
+        log.lastTeleT = 0; log.lastQ = 0; log.lastU = 1;
+        const int kind = rng() % 4;
+        Integrator* integ = makeInteg(kind, sys);
+        TimeStepper ts(sys, *integ); ts.initialize(s);
+        Real req = 0; const Real tEnd = times.back() + 0.3;
+        char ctx[160]; snprintf(ctx, sizeof ctx, "[seed %u run %d integ %d, %d scheduled times, report period %g]", seed, it, kind, ns, h);
+        std::string why;
+        for (int k = 0; k < 400 && req < tEnd && why.empty(); k++) {
+            req += 0.01 * (1 + rng() % 30);
+            Integrator::SuccessfulStepStatus st;
+            try { st = ts.stepTo(req); } catch (std::exception& e) { why = std::string("exception: ") + e.what(); break; }
+            const Real tn = ts.getState().getTime();
+            if (tn > req || integ->getAdvancedTime() > req) why = "returned/advanced state past the requested time";
+            else if (st == Integrator::ReachedReportTime && tn != req) why = "ReachedReportTime returned before the requested time";
+            else {      // motion continues from the state the last handler produced (force-free: exact up to integration error)
+                const Real expect = log.lastQ + log.lastU * (tn - log.lastTeleT);
+                if (std::abs(ts.getState().getQ()[0] - expect) > 1e-6) why = "state does not continue from what the last handler produced";
+            }
+        }
+        if (why.empty()) {
+            std::vector<Real> expS; for (Real x : times) if (x <= req) expS.push_back(x);      // all scheduled times <= last request... handled at == time
+            std::vector<Real> gotS; for (Real x : log.sched) gotS.push_back(x);
+            while (!expS.empty() && expS.back() == req && gotS.size() + 1 == expS.size()) expS.pop_back();      // an event exactly at the last request is handled by the next call
+            if (gotS != expS) { std::ostringstream o; o << "scheduled handler log differs from the schedule: got"; for (Real x : gotS) o << " " << x; o << " expected"; for (Real x : expS) o << " " << x; why = o.str(); }
+        }
+        if (why.empty()) {
+            long long kk = 0; size_t i = 0;
+            for (; i < log.report.size(); i++, kk++) if (log.report[i] != kk * h) { why = "periodic reporter not called exactly at k*interval, once each"; break; }
+            if (why.empty() && (kk + 1) * h <= req - h) why = "periodic reports missing";
+        }
+        for (Real x : log.trigAdv) ntrig++;
+        nsched += (int)log.sched.size(); nrep += (int)log.report.size();
+        if (!why.empty()) { printf("REPRODUCED: TimeStepper: %s %s\n", why.c_str(), ctx); bad++; }
+        delete integ;
+    }
+    if (!bad) printf("NOT-REPRODUCED (%d runs: %d scheduled handler calls, %d periodic reports, %d triggered handler calls, all at their times)\n", n, nsched, nrep, ntrig);
+    return bad;
+}
+
+// ---------------------------------------------------------------------------------------------------------------------
+// schedule: finding F9. A handler of the DefaultSystemSubsystem scheduled for t=5 plus a user subsystem (later index) whose own
+// scheduled event is at t=2: System::calcTimeOfNextScheduledEvent must deliver t=2 with ONE id, and a TimeStepper run to t=3 must
+// not invoke the t=5 handler.
+struct LateH : public ScheduledEventHandler {
+    LateH(Real T, std::vector<Real>* log) : T(T), log(log) {}
+    Real getNextEventTime(const State& s, bool inc) const override { return (T > s.getTime() || (inc && T == s.getTime())) ? T : Infinity; }
+    void handleEvent(State& s, Real, bool&) const override { log->push_back(s.getTime()); }
+    Real T; std::vector<Real>* log;
+};
+class EarlyGuts : public Subsystem::Guts {
+public:
+    EarlyGuts() : Subsystem::Guts("early", "0") {}
+    EarlyGuts* cloneImpl() const override { return new EarlyGuts(*this); }
+    void calcTimeOfNextScheduledEventImpl(const State& s, Real& tNext, Array_<EventId>& ids, bool inc) const override {
+        const Real T = 2.0; if (T > s.getTime() || (inc && T == s.getTime())) { tNext = T; ids.push_back(EventId(777)); } }
+    void calcTimeOfNextScheduledReportImpl(const State& s, Real& tNext, Array_<EventId>& ids, bool inc) const override {
+        const Real T = 2.0; if (T > s.getTime() || (inc && T == s.getTime())) { tNext = T; ids.push_back(EventId(778)); } }
+};
+class EarlySub : public Subsystem { public: EarlySub(System& sys) { adoptSubsystemGuts(new EarlyGuts()); sys.adoptSubsystem(*this); } };
+struct LateR : public ScheduledEventReporter {
+    LateR(Real T, std::vector<Real>* log) : T(T), log(log) {}
+    Real getNextEventTime(const State& s, bool inc) const override { return (T > s.getTime() || (inc && T == s.getTime())) ? T : Infinity; }
+    void handleEvent(const State& s) const override { log->push_back(s.getTime()); }
+    Real T; std::vector<Real>* log;
+};
+static int schedule() {
+    MultibodySystem sys; SimbodyMatterSubsystem matter(sys);
+    Body::Rigid body(MassProperties(1.0, Vec3(0), Inertia(1)));
+    MobilizedBody::Pin pin(matter.Ground(), Transform(), body, Transform(Vec3(0, 1, 0)));
+    std::vector<Real> hlog, rlog;
+    sys.addEventHandler(new LateH(5.0, &hlog)); sys.addEventReporter(new LateR(5.0, &rlog));
+    EarlySub early(sys);
+    State s = sys.realizeTopology(); sys.realize(s, Stage::Time);
+    Real tE, tR; Array_<EventId> idsE, idsR;
+    sys.calcTimeOfNextScheduledEvent(s, tE, idsE, true); sys.calcTimeOfNextScheduledReport(s, tR, idsR, true);
+    RungeKuttaMersonIntegrator integ(sys); TimeStepper ts(sys, integ); ts.initialize(s);
+    ts.stepTo(3.0);
+    int bad = 0;
+    if (!(tE == 2.0 && idsE.size() == 1)) { printf("REPRODUCED: calcTimeOfNextScheduledEvent delivers t=%g with %d ids (expected t=2 with the 1 id of the subsystem scheduled then; the id of the t=5 event of an earlier subsystem was not dropped)\n", tE, (int)idsE.size()); bad++; }
+    if (!(tR == 2.0 && idsR.size() == 1)) { printf("REPRODUCED: calcTimeOfNextScheduledReport delivers t=%g with %d ids (expected t=2 with 1 id)\n", tR, (int)idsR.size()); bad++; }
+    if (!hlog.empty()) { printf("REPRODUCED: TimeStepper::stepTo(3) invoked the handler scheduled for t=5 at t=%g\n", hlog[0]); bad++; }
+    if (!rlog.empty()) { printf("REPRODUCED: TimeStepper::stepTo(3) invoked the reporter scheduled for t=5 at t=%g\n", rlog[0]); bad++; }
+    if (!bad) printf("NOT-REPRODUCED (t=2 delivered with one id each; the t=5 handler/reporter not invoked before t=3)\n");
+    return bad;
+}
 int main(int argc, char** argv) {
     try {
         std::string mode = argc > 1 ? argv[1] : "";
         if (mode == "classify") return classify() ? 1 : 0;
         if (mode == "localize") return localize(argc > 2 ? atoi(argv[2]) : 1, argc > 3 ? atoi(argv[3]) : 100) ? 1 : 0;
-        printf("usage: c22_replay classify | localize <seed> <n>\n");
+        if (mode == "schedule") return schedule() ? 1 : 0;
+        if (mode == "fec") return fec(argc > 2 ? atoi(argv[2]) : 1, argc > 3 ? atoi(argv[3]) : 100) ? 1 : 0;
+        if (mode == "timestepper") return timestepper(argc > 2 ? atoi(argv[2]) : 1, argc > 3 ? atoi(argv[3]) : 100) ? 1 : 0;
+        printf("usage: c22_replay classify | localize <seed> <n> | fec <seed> <n> | timestepper <seed> <n> | schedule\n");
     } catch (std::exception& e) { printf("driver exception: %s\nNOT-REPRODUCED\n", e.what()); }
     return 0;
 }
